@@ -67,6 +67,17 @@ def run(ctx, chk):
                             good = False
                             detail += ' (taken from a clock read AFTER the query at %s)' % ef2['site'][2]
                 chk.ob('C12.O3', 'poll:as-of-is-pre-query-read', good, info['sends'][0][1]['site'][2], detail)
+                # O4: the report that as-of is attached to is the reply to *that* query -- the one issued after the read on
+                # this iteration. A report carried over from an earlier iteration (held back, cached, re-sent) was requested
+                # before this iteration's clock read, so its as-of would post-date its request.
+                rep = tup[3][0] if tup[0] == 'agg' and tup[3] else None
+                qterm = psi.T('call', qef['callee'], qn, *qef['args'])
+                from_query = rep is not None and contains(rep, qterm)
+                stale = rep is not None and any(x[0] == 'sym' and str(x[1]).startswith('loop:') for x in psi.walk(rep))
+                chk.ob('C12.O4', 'poll:report-is-the-reply-to-this-query', from_query and not stale, info['sends'][0][1]['site'][2],
+                       'the report shipped with this as-of is %s%s' % (fmt(rep)[:120] if rep is not None else None,
+                           '' if from_query and not stale else ' -- not the reply to the query that followed this iteration\'s clock read: '
+                           'the as-of does not precede the request that produced the report'))
         chk.floor('C12.O1', 'paths through the chrony query', n_q, 1)
         # CFG form: a clock read (direct, or a call that reaches one) dominates every call that reaches the chrony query;
         # a single call that reaches both is checked inside its callee
